@@ -56,6 +56,7 @@ class Engine:
         ctx = self.ctx
         t0 = ctx.t0
         self.gdir = {}
+        self.corder = {}
         ctx.flatcc()
         for s in self.corpus:
             d = os.path.join(ctx.bdir, 'gen_' + s.name); os.makedirs(d, exist_ok=True)
@@ -73,6 +74,8 @@ class Engine:
                 continue
             open(os.path.join(d, 'glue.h'), 'w').write(bu.gen_glue(s))
             self.gdir[s.name] = d
+            try: self.corder[s.name] = bu.create_order(s, d)
+            except Exception: self.corder[s.name] = {}
             open(os.path.join(d, 'glueb.h'), 'w').write(bu.gen_glue_build(s))
         objs = ctx.rt_objs(san=True, defs=['-DNDEBUG'])
         hdir = os.path.join(lib.ROOT, 'harness')
@@ -130,15 +133,17 @@ class Engine:
                 'ident': rng.choice(idents), 'with_size': rng.random() < 0.35, 'style': style,
                 'early': style == 'se' and rng.random() < 0.3, 'align': 0}
 
-    def make_case(self, rng, s, root=None, maxdepth=None, size=1.0, klass=None, opts=None, styles=True, nested_bias=False, gen_api=False):
+    def make_case(self, rng, s, root=None, maxdepth=None, size=1.0, klass=None, opts=None, styles=True, nested_bias=False, gen_api=False, embed_bias=None):
         root = root or s.root
         vg = bu.ValueGen(s, rng, maxdepth=maxdepth if maxdepth is not None else rng.choice([1, 2, 2, 3]), size=size)
+        if embed_bias is not None: vg.embed_bias = embed_bias
         if root in s.tables:
             node = vg.table(root, 0)
         else:
             node = bu.Node('bytes', vg.inline(root), root)
         g = bu.ScriptGen(s, rng, styles=styles)
         g.gen_api = gen_api and s.name in self.HG
+        g.corder = self.corder.get(s.name)
         o = dict(opts or self.toplevel_opts(rng, s, root))
         if o['style'] == 'c' and bu.has_nested(node):
             # flatcc_builder.h: create_buffer is not suitable as a container for buffers created with start/end_buffer
